@@ -339,6 +339,10 @@ fn scenario_timeout(seed: u64) {
     let dl0 = rsactor::dead_letter_count();
     // the handler of this message waits at the gate: the actor is "slow"
     r.blocking_tell(Job(1, true), None).unwrap();
+    // the rest of the scenario assumes that the actor has taken message 1 out of the mailbox (and waits at the gate)
+    while journal.lock().unwrap().entered < 1 {
+        std::thread::sleep(Duration::from_millis(1));
+    }
     let t = Duration::from_millis(10 + rng.below(30));
     let mut expected_dl = 0;
     let t0 = Instant::now();
@@ -746,9 +750,14 @@ fn scenario_ask_vs_end(seed: u64) {
     }
     let _ = rt.block_on(jh);
     ev(format!("ask-vs-end ending={ending} cap={cap} outcomes={outcomes:?} handled={}", journal.lock().unwrap().handled.len()));
-    for o in &outcomes {
+    for (c, o) in outcomes.iter().enumerate() {
         if !matches!(*o, "ok" | "Send" | "Receive") {
             violation("C03", "unexpected-error", format!("ask racing the actor's end returned {o}"));
+        }
+        // the handler ran to completion for this request, so its reply was sent before the mailbox closed:
+        // the reply was not dropped and the request was delivered - an error here (and its dead letter) is wrong
+        if *o != "ok" && journal.lock().unwrap().handled.contains(&(100 + c as u64)) {
+            violation("C13", "error-although-replied", format!("ask {} returned {o} (and recorded a dead letter) although its handler had completed and replied", 100 + c));
         }
     }
 }
@@ -1099,9 +1108,13 @@ fn scenario_blocking_ask_vs_end(seed: u64) {
     }
     let _ = rt.block_on(jh);
     ev(format!("blocking-ask-vs-end ending={ending} cap={cap} outcomes={outcomes:?} handled={}", journal.lock().unwrap().handled.len()));
-    for o in &outcomes {
+    for (c, o) in outcomes.iter().enumerate() {
         if !matches!(*o, "ok" | "Send" | "Receive") {
             violation("C17", "unexpected-error", format!("blocking_ask racing the actor's end returned {o}"));
+        }
+        // as for ask: a request whose handler completed was answered before the mailbox closed
+        if *o != "ok" && journal.lock().unwrap().handled.contains(&(100 + c as u64)) {
+            violation("C17", "error-although-replied", format!("blocking_ask {} returned {o} (and recorded a dead letter) although its handler had completed and replied", 100 + c));
         }
     }
 }
